@@ -246,9 +246,15 @@ pub struct World {
     pub log: Vec<Ev>,
     /// Each link is a set of (daemon, if_index) endpoints that hear each other's multicasts.
     pub links: Vec<Vec<(usize, u32)>>,
+    /// IP_MULTICAST_LOOP (the crate's default: on): a daemon also receives its own multicasts on
+    /// the interface they left on.  Off unless a check turns it on (or VERIF_LOOPBACK=1).
+    pub loopback: bool,
     pub trace: bool,
     pub steps: u64,
     pub hang: Duration,
+    /// Set when more than 20 000 iterations were needed to settle one instant: packets keep
+    /// causing packets without virtual time passing (description with the last log lines).
+    pub storm: Option<String>,
 }
 
 pub fn v4(name: &str, index: u32, ip: &str, prefix: u8) -> SimIntf {
@@ -278,6 +284,8 @@ impl World {
             ds: Vec::new(),
             log: Vec::new(),
             links: Vec::new(),
+            loopback: std::env::var("VERIF_LOOPBACK").is_ok_and(|v| v == "1"),
+            storm: None,
             trace: std::env::var("VERIF_TRACE").is_ok(),
             steps: 0,
             hang: HANG,
@@ -522,8 +530,11 @@ impl World {
                     }
                 }
             }
+            if self.loopback && res == StepOut::Parked {
+                targets.push((d, ifi));
+            }
             for (d2, i2) in targets {
-                if self.ds[d2].state != StepOut::Parked {
+                if self.ds[d2].state != StepOut::Parked && d2 != d {
                     continue;
                 }
                 self.ds[d2].ctl.inject(InPkt {
@@ -548,8 +559,15 @@ impl World {
             };
             self.step(d);
             guard += 1;
-            if guard > 100_000 {
-                panic!("settle: packet storm between daemons");
+            if guard > 20_000 || self.storm.is_some() {
+                if self.storm.is_none() {
+                    let tail: Vec<String> = self.log.iter().rev().take(4).map(|e| truncate_line(&e.line(), 300)).collect::<Vec<_>>().into_iter().rev().collect();
+                    self.storm = Some(format!("packet storm: 20000 iterations in one virtual millisecond at +{}; last packets: {}", self.now - T0, tail.join(" || ")));
+                }
+                for d in self.ds.iter_mut() {
+                    d.needs_step = false;
+                }
+                break;
             }
         }
     }
@@ -701,6 +719,10 @@ impl Drop for World {
 }
 
 /// FNV-1a 128-bit, for digests of canonical text.
+fn truncate_line(s: &str, n: usize) -> String {
+    s.chars().take(n).collect()
+}
+
 pub fn fnv128(data: &[u8]) -> u128 {
     let mut h: u128 = 0x6c62272e07bb014262b821756295c58d;
     for &b in data {
